@@ -443,28 +443,31 @@ Definition map_values (f : st -> json -> eres (st * json)) (l : list (string * j
   fold_left (fun acc kv => ebind acc (fun so => ebind (f (fst so) (snd kv)) (fun sv => Done (fst sv, (snd so ++ [(fst kv, snd sv)])%list))))
             l (Done (s, [])).
 
+(* one section of the root document: every entry through f, in the order of the JSON object *)
+Definition section_step (k : string) (f : st -> string -> json -> eres (st * json))
+           (acc : eres (st * list (string * json))) : eres (st * list (string * json)) :=
+  ebind acc (fun sm =>
+    match assoc k (snd sm) with
+    | Some (JObj vm) =>
+        ebind (fold_left (fun acc2 dv => ebind acc2 (fun so2 =>
+                            ebind (f (fst so2) (fst dv) (snd dv)) (fun sv => Done (fst sv, (snd so2 ++ [(fst dv, snd sv)])%list))))
+                         vm (Done (fst sm, [])))
+              (fun sv => Done (fst sv, set_member k (JObj (snd sv)) (snd sm)))
+    | _ => Done sm
+    end).
+
 Definition expand_spec_with (fuel : nat) (root_url : string) (root : json) (s : st) : eres (st * json) :=
   match root with
   | JObj m =>
       let rr := Some root_url in
-      (* the four sections in the order ExpandSpec visits them; entries in the order of the JSON object *)
-      let section (k : string) (f : st -> string -> json -> eres (st * json)) (acc : eres (st * list (string * json))) :=
-        ebind acc (fun sm =>
-          match assoc k (snd sm) with
-          | Some (JObj vm) =>
-              ebind (fold_left (fun acc2 dv => ebind acc2 (fun so2 =>
-                                  ebind (f (fst so2) (fst dv) (snd dv)) (fun sv => Done (fst sv, (snd so2 ++ [(fst dv, snd sv)])%list))))
-                               vm (Done (fst sm, [])))
-                    (fun sv => Done (fst sv, set_member k (JObj (snd sv)) (snd sm)))
-          | _ => Done sm
-          end) in
+      (* the four sections in the order ExpandSpec visits them *)
       let r0 : eres (st * list (string * json)) := Done (s, m) in
       let r1 := if o_skip OP then r0
-                else section "definitions" (fun s k v => walk v s ["#/definitions/" ++ k] rr ctx_base) r0 in
-      let r2 := section "parameters" (fun s _ v => expand_por fuel s rr ctx_base "Parameter" v) r1 in
-      let r3 := section "responses" (fun s _ v => expand_por fuel s rr ctx_base "Response" v) r2 in
-      let r4 := section "paths" (fun s k v => if has_x_prefix_ci k then Done (s, v)
-                                              else match v with JObj _ => expand_path_item fuel s rr ctx_base v | _ => Done (s, v) end) r3 in
+                else section_step "definitions" (fun s k v => walk v s ["#/definitions/" ++ k] rr ctx_base) r0 in
+      let r2 := section_step "parameters" (fun s _ v => expand_por fuel s rr ctx_base "Parameter" v) r1 in
+      let r3 := section_step "responses" (fun s _ v => expand_por fuel s rr ctx_base "Response" v) r2 in
+      let r4 := section_step "paths" (fun s k v => if has_x_prefix_ci k then Done (s, v)
+                                                   else match v with JObj _ => expand_path_item fuel s rr ctx_base v | _ => Done (s, v) end) r3 in
       ebind r4 (fun sm => Done (fst sm, JObj (snd sm)))
   | _ => Failed s
   end.
@@ -479,4 +482,21 @@ Fixpoint exp (d : nat) (s : st) (parents : list string) (rroot : option string) 
 
 Definition expand_spec (d : nat) (root_url : string) (root : json) (s : st) : eres (st * json) :=
   expand_spec_with (exp d) (S d) root_url root s.
+
+(* the single-element entry points: set-up code around the same core.
+   ExpandSchema(schema, root, cache): the root is put in the cache under the pseudo location ".root" (baseForRoot) and
+   the loader has no root of its own; ExpandSchemaWithBasePath: no root at all, only a base location;
+   Expand{Parameter,Response}WithRoot: the root is cached AND held by the loader. *)
+Definition state_with_root (pseudo : string) (root : json) (c0 : list (string * json)) : st :=
+  mkSt [] ((pseudo, root) :: c0) [] "" false.
+Definition state_plain (c0 : list (string * json)) : st := mkSt [] c0 [] "" false.
+
+Definition expand_schema_with_root (d : nat) (pseudo : string) (root : json) (c0 : list (string * json)) (j : json) :=
+  exp d (state_with_root pseudo root c0) [] None pseudo j.
+Definition expand_schema_with_base (d : nat) (base : string) (c0 : list (string * json)) (j : json) :=
+  exp d (state_plain c0) [] None base j.
+Definition expand_element_with_root (d : nat) (pseudo : string) (root : json) (c0 : list (string * json)) (kind : string) (j : json) :=
+  expand_por (exp d) (S d) (state_with_root pseudo root c0) (Some pseudo) pseudo kind j.
+Definition expand_element_with_base (d : nat) (base : string) (c0 : list (string * json)) (kind : string) (j : json) :=
+  expand_por (exp d) (S d) (state_plain c0) None base kind j.
 End Model.
